@@ -26,6 +26,7 @@ META["explanation"] += " R15.5 a Reset emitted by the Head / Tail translators is
 META["explanation"] += " R15.6 (balance.py, the same abstract interpretation as R09.12): after every emitted diff of every path of every arm the running length of the consumer's view is at most L in every feasible case; where it decides an arm, the syntactic R15.1 is subordinate to it. R09.14 (no untranslated forward of a source item) is evaluated here as well."
 META["explanation"] += ' R15.7 the local helper Tail cuts whole vectors with returns the part after the split position on every path (split_at(..).1, the value split_off returns, skip) - never what split_off / truncate left in place.'
 META["explanation"] += ' Shared with C12: R12.5 (the adapter handed to the next stage keeps its replica: the limit is enforced from it).'
+META["explanation"] += ' Shared with C12: R12.4 (the adapter handed on drops the diffs it has already folded into the view).'
 
 
 def run(ctx):
@@ -60,6 +61,7 @@ def run(ctx):
     # an adapter handed to the next stage keeps its replica: the PopBack / PopFront that enforce the limit are computed from it
     from . import c12 as _c12
     _c12.r12_5(ctx)
+    _c12.r12_4(ctx)   # .. and drops the diffs it has already folded into the view it hands over (replayed, they push the view past its limit)
 
 
 
